@@ -31,6 +31,51 @@ pub struct Hist {
     /// C14: model of the savepoint stack: (name, table contents when it was created)
     sp_stack: Vec<(String, BTreeMap<String, TableSnap>, bool)>,
     dead_savepoints: Vec<String>,
+    /// C24: hostile statements (extreme literals, multi-byte strings, missing objects) are mixed in
+    hostile: bool,
+}
+
+/// One statement built to reach value-dependent failure modes: slicing inside multi-byte characters,
+/// extreme integer arguments, division by zero, narrowing casts, missing objects, wrong arity.
+pub fn gen_hostile(rng: &mut Rng, def: &TableDef) -> String {
+    let t = &def.name;
+    let any = rng.pick(&def.cols).clone();
+    let ints = ["0", "-1", "1", "2", "9223372036854775807", "-9223372036854775807", "(-9223372036854775807 - 1)", "2147483648", "32768"];
+    let strs = ["'é'", "'héllo wörld'", "'😀😀'", "''", "'a'", "'%_'", "'12345678é'", "'\\'"];
+    let i = |rng: &mut Rng| rng.pick(&ints).to_string();
+    let st = |rng: &mut Rng| rng.pick(&strs).to_string();
+    match rng.below(30) {
+        0 => format!("SELECT TIME '00:00:00.{}'", rng.pick(&["12345678é", "1é", "é", "999999999999", "-1"])),
+        1 => format!("SELECT TIMESTAMP '2020-01-01 {}'", rng.pick(&["00:00:00.12345678é", "25:00:00", "00:00:00.1234567€", "é"])),
+        2 => format!("SELECT DATE '{}'", rng.pick(&["2020-0é-01", "2020-13-01", "2020-02-30", "é020-01-01", "99999-01-01", "0000-00-00"])),
+        3 => format!("SELECT CAST({} AS {})", st(rng), rng.pick(&["TIME", "DATE", "TIMESTAMP", "INTEGER", "SMALLINT", "DOUBLE PRECISION", "BOOLEAN", "CHAR(1)", "VARCHAR(1)"])),
+        4 => format!("SELECT SUBSTRING({} FROM {} FOR {})", st(rng), i(rng), i(rng)),
+        5 => format!("SELECT SUBSTRING({} FROM {})", st(rng), i(rng)),
+        6 => format!("SELECT {}({}, {})", rng.pick(&["LEFT", "RIGHT", "REPEAT"]), st(rng), rng.pick(&["0", "-1", "1", "2", "3", "-9223372036854775807"])),
+        7 => format!("SELECT {}({}, {}, {})", rng.pick(&["LPAD", "RPAD"]), st(rng), rng.pick(&["0", "-1", "1", "3", "7"]), st(rng)),
+        8 => format!("SELECT {} {} {}", i(rng), rng.pick(&["/", "%", "+", "-", "*"]), i(rng)),
+        9 => format!("SELECT {}({})", rng.pick(&["ABS", "-", "SIGN", "SQRT", "LN", "EXP", "ROUND", "FLOOR", "CEIL"]), i(rng)),
+        10 => format!("SELECT CAST({} AS {})", i(rng), rng.pick(&["SMALLINT", "INTEGER", "BIGINT", "REAL", "CHAR(2)", "VARCHAR(3)", "BOOLEAN", "DATE"])),
+        11 => format!("SELECT CAST({} AS {})", rng.pick(&["1e400", "1e19", "-1e19", "1e308 * 10", "0.5", "-0.0"]), rng.pick(&["INTEGER", "BIGINT", "SMALLINT", "REAL", "NUMERIC(3,1)"])),
+        12 => format!("SELECT * FROM {} LIMIT {} OFFSET {}", t, rng.pick(&["0", "1", "9223372036854775807", "-1"]), rng.pick(&["0", "9223372036854775807", "-1"])),
+        13 => format!("SELECT {} FROM {} ORDER BY {}", any.name, t, rng.pick(&["99", "0", "-1", "1"])),
+        14 => format!("SELECT {} FROM {} GROUP BY {}", any.name, t, rng.pick(&["99", "0", "1"])),
+        15 => format!("SELECT {} {} {}", st(rng), rng.pick(&["LIKE", "NOT LIKE"]), rng.pick(&["'_'", "'%é'", "'\\'", "'%\\'", "'[a'", "'é_'", "''"])),
+        16 => format!("SELECT {}({})", rng.pick(&["UPPER", "LOWER", "CHAR_LENGTH", "LENGTH", "TRIM", "REVERSE", "ASCII"]), st(rng)),
+        17 => format!("SELECT POSITION({} IN {})", st(rng), st(rng)),
+        18 => format!("SELECT TRIM({} {} FROM {})", rng.pick(&["BOTH", "LEADING", "TRAILING"]), st(rng), st(rng)),
+        19 => format!("SELECT {}({}, {}, {})", rng.pick(&["REPLACE", "SUBSTR", "INSTR", "LOCATE"]), st(rng), st(rng), rng.pick(&["''", "'é'", "1", "0", "-1"])),
+        20 => format!("INSERT INTO {} (nosuch) VALUES (1)", t),
+        21 => format!("INSERT INTO {} VALUES ({})", t, (0..def.cols.len() + 1).map(|_| "1").collect::<Vec<_>>().join(", ")),
+        22 => format!("SELECT * FROM nosuch{}", rng.below(3)),
+        23 => format!("UPDATE {} SET {} = {} WHERE {} = {}", t, any.name, rng.pick(&["'héllo wörld, héllo wörld'", "9223372036854775807 + 1", "1 / 0", "DEFAULT"]), any.name, st(rng)),
+        24 => format!("SELECT SUM({c}), AVG({c}), MIN({c}), MAX({c}) FROM {t} WHERE {c} {op} {v}", c = any.name, t = t, op = rng.pick(&["=", "<", ">=", "BETWEEN 1 AND", "IN"]), v = rng.pick(&["(1, 2)", "9223372036854775807", "'é'", "NULL"])),
+        25 => format!("SELECT {c} FROM {t} WHERE {c} BETWEEN {a} AND {b}", c = any.name, t = t, a = i(rng), b = i(rng)),
+        26 => format!("SELECT COALESCE(), NULLIF({}), GREATEST()", i(rng)),
+        27 => format!("SELECT CASE WHEN {} THEN {} END", st(rng), i(rng)),
+        28 => format!("SELECT EXTRACT({} FROM {})", rng.pick(&["YEAR", "HOUR", "SECOND", "NOSUCH"]), rng.pick(&["DATE '2020-01-01'", "TIME '01:02:03'", "'é'", "1"])),
+        _ => format!("DELETE FROM {} WHERE {} {} {}", t, any.name, rng.pick(&["=", "<", "LIKE"]), st(rng)),
+    }
 }
 
 /// Value-normalised canonical form: integer variants compare by value, strings by content.
@@ -267,8 +312,8 @@ impl Hist {
 impl Scenario for Hist {
     const NAME: &'static str = "hist";
 
-    fn new(_prop: &str, sw: &Swarm) -> Self {
-        Hist { sut: Sut::new(), world: World::default(), sw: sw.clone(), setup: Vec::new(), begin_snap: None, begin_world: None, sp_stack: Vec::new(), dead_savepoints: Vec::new() }
+    fn new(prop: &str, sw: &Swarm) -> Self {
+        Hist { sut: Sut::new(), world: World::default(), sw: sw.clone(), setup: Vec::new(), begin_snap: None, begin_world: None, sp_stack: Vec::new(), dead_savepoints: Vec::new(), hostile: prop == "C24" }
     }
 
     fn next_op(&mut self, rng: &mut Rng, cx: &mut Ctx) -> Option<Op> {
@@ -331,6 +376,11 @@ impl Scenario for Hist {
                 return Some(Op::create_table(gen_table(rng, &sw, &name)));
             }
         };
+        if self.hostile && rng.chance(1, 4) {
+            let mut op = Op::new(Kind::Hostile, gen_hostile(rng, &def));
+            op.fault = "hostile".into();
+            return Some(op);
+        }
         let mut cx_veto = false;
         let no_ddl_now = self.world.in_tx && (sw.with_savepoints || sw.guard("no_ddl_in_tx"));
         let weights = [
@@ -584,6 +634,30 @@ impl Scenario for Hist {
         let world_before = if op.kind == Kind::Begin { self.world.clone() } else { World::default() };
 
         // ---- execute
+        if op.kind == Kind::Hostile && op.sql.starts_with("SELECT") {
+            // read-only hostile statement: executed on a copy in a watchdog thread, so that a statement
+            // that never returns is reported instead of stalling the batch (the thread is leaked)
+            let db = self.sut.db.clone();
+            let sql = op.sql.clone();
+            let (tx, rx) = std::sync::mpsc::channel();
+            let _ = std::thread::Builder::new().stack_size(64 << 20).spawn(move || {
+                simcore::hashseed::set(0xC24); // fixed hash keys: the result must not depend on them
+                let _ = tx.send(Sut::from_db(db).query(&sql));
+            });
+            let out = match rx.recv_timeout(std::time::Duration::from_secs(20)) {
+                Ok(o) => o,
+                Err(_) => {
+                    cx.eval("c24.returns");
+                    return cx.violation("c24.hang", format!("statement did not return within 20 s: {}", op.sql));
+                }
+            };
+            cx.log.str(out.class());
+            cx.eval("c24.returns");
+            if let Out::Panic(p) = &out {
+                return cx.violation("c24.panic", format!("statement panicked: {} :: {}", op.sql, p));
+            }
+            return Step::Continue;
+        }
         let out = self.sut.exec(&op.sql);
         cx.log.str(out.class());
         cx.sig.str(out.class());
